@@ -42,6 +42,81 @@ theorem bootOrder_flatMap (ns : List Nat) (h : ∀ n ∈ ns, n < 65536) :
     rw [List.flatMap_cons, bootOrder_le16 n (h n (by simp)), ih (fun x hx => h x (by simp [hx]))]
     rfl
 
+/-! ### every BootOrder value, odd lengths included (F35 repair) -/
+
+/-- the decoder's names are the firmware names of the complete entries, whatever the length -/
+theorem bootOrder_entries : ∀ bs : Bytes, Impl.bootOrder bs = (Spec.entriesLE bs).map Spec.fwBootName
+  | [] => rfl
+  | [_] => rfl
+  | a :: b :: r => by
+    rw [Impl.bootOrder, Spec.entriesLE, List.map_cons, bootOrder_entries r]; rfl
+
+theorem entriesLE_length : ∀ bs : Bytes, (Spec.entriesLE bs).length = bs.length / 2
+  | [] => rfl
+  | [_] => by simp [Spec.entriesLE]
+  | _ :: _ :: r => by
+    rw [Spec.entriesLE, List.length_cons, entriesLE_length r]
+    simp only [List.length_cons]; omega
+
+theorem entriesLE_lt : ∀ (bs : Bytes), ∀ n ∈ Spec.entriesLE bs, n < 65536
+  | [], n, h => by simp [Spec.entriesLE] at h
+  | [_], n, h => by simp [Spec.entriesLE] at h
+  | a :: b :: r, n, h => by
+    have ha := UInt8.toNat_lt a
+    have hb := UInt8.toNat_lt b
+    simp only [Spec.entriesLE, List.mem_cons] at h
+    rcases h with rfl | h
+    · omega
+    · exact entriesLE_lt r n h
+
+/-- the `k`-th entry is the little-endian 16-bit value at byte offset `2 * k` -/
+theorem entriesLE_get : ∀ (bs : Bytes) (k : Nat), k < bs.length / 2 →
+    (Spec.entriesLE bs)[k]? = some (le16At bs (2 * k))
+  | [], k, h => by simp at h
+  | [_], k, h => by simp only [List.length_cons, List.length_nil] at h; omega
+  | a :: b :: r, 0, _ => rfl
+  | a :: b :: r, k + 1, h => by
+    have h' : k < r.length / 2 := by simp only [List.length_cons] at h; omega
+    have e1 : 2 * (k + 1) = (2 * k) + 1 + 1 := by omega
+    rw [Spec.entriesLE, List.getElem?_cons_succ, entriesLE_get r k h', e1]
+    simp only [le16At, byteAt, List.getElem?_cons_succ]
+
+/-- the entries, position by position: `⌊len/2⌋` little-endian 16-bit values -/
+theorem entriesLE_eq_range (bs : Bytes) :
+    Spec.entriesLE bs = (List.range (bs.length / 2)).map (fun k => le16At bs (2 * k)) := by
+  apply List.ext_getElem?
+  intro k
+  by_cases hk : k < bs.length / 2
+  · rw [entriesLE_get bs k hk, List.getElem?_map, List.getElem?_range hk]; rfl
+  · rw [List.getElem?_eq_none (by rw [entriesLE_length]; omega),
+      List.getElem?_eq_none (by rw [List.length_map, List.length_range]; omega)]
+
+/-- the entries of an encoded list of 16-bit numbers are these numbers -/
+theorem entriesLE_flatMap (ns : List Nat) (h : ∀ n ∈ ns, n < 65536) :
+    Spec.entriesLE (ns.flatMap le16) = ns := by
+  induction ns with
+  | nil => rfl
+  | cons n ns ih =>
+    have hn := h n (by simp)
+    rw [List.flatMap_cons]
+    simp only [le16, List.cons_append, List.nil_append, Spec.entriesLE]
+    rw [toUInt8_toNat_of_lt _ (by omega), toUInt8_toNat_of_lt _ (by omega), ih (fun x hx => h x (by simp [hx]))]
+    have : n % 256 + 256 * (n / 256 % 256) = n := by omega
+    rw [this]
+
+/-- a single byte behind complete entries is no entry -/
+theorem entriesLE_append_single : ∀ (xs : Bytes) (a : UInt8), xs.length % 2 = 0 →
+    Spec.entriesLE (xs ++ [a]) = Spec.entriesLE xs
+  | [], _, _ => rfl
+  | [_], _, h => by simp at h
+  | x :: y :: r, a, h => by
+    have h' : r.length % 2 = 0 := by simp only [List.length_cons] at h; omega
+    rw [List.cons_append, List.cons_append, Spec.entriesLE, entriesLE_append_single r a h', Spec.entriesLE]
+
+/-- a single byte behind complete entries adds no name -/
+theorem bootOrder_append_single (xs : Bytes) (a : UInt8) (h : xs.length % 2 = 0) :
+    Impl.bootOrder (xs ++ [a]) = Impl.bootOrder xs := by
+  rw [bootOrder_entries, bootOrder_entries, entriesLE_append_single xs a h]
 
 /-- a 4-byte device-path node header with the given type and subtype -/
 def hdrIs (h : Bytes) (ty sub : UInt8) : Prop := h.length = 4 ∧ h.take 2 = [ty, sub]
